@@ -36,6 +36,8 @@ LEVEL_TEXT = (
 LEVEL_NOTE = "Trusts NumPy's window functions and FFT, math.lgamma and mpmath as references."
 
 AREA = {"BartlettWindow": 0.5, "BlackmanWindow": 0.42, "HammingWindow": 0.54, "HannWindow": 0.5}
+ALIASES = {"hann": "HannWindow", "hanning": "HannWindow", "hamming": "HammingWindow", "blackman": "BlackmanWindow", "black": "BlackmanWindow", "bartlett": "BartlettWindow",
+           "tri": "BartlettWindow", "triangular": "BartlettWindow"}  # the documented aliases of the four numpy-based windows
 NPWIN = {"BartlettWindow": np.bartlett, "BlackmanWindow": np.blackman, "HammingWindow": np.hamming, "HannWindow": np.hanning}
 
 
@@ -66,6 +68,10 @@ class Mon:
         if name not in AREA:
             return
         width = c.args[0] if c.args else c.kwargs.get("width")
+        self.judge_npwin(name, c, width)
+
+    def judge_npwin(self, name, c, width):
+        """c: the observed call (self, result, exc); name: the documented window it is judged as"""
         self.rec.ev()
         self.rec.count("window_calls_" + name)
         if c.exc is not None:
@@ -287,6 +293,25 @@ def run_case(case, rec, mon=None):
     kind = case["kind"]
     if kind == "windows":
         objs = [getattr(F, n)() for n in AREA]
+        # the same windows as configurations and frame computers obtain them: by their documented aliases.  Whatever object an alias
+        # gives is judged as the window the alias is documented for
+        from pydrobert.speech.alias import alias_factory_subclass_from_arg
+        import types
+
+        for k, (alias, name) in enumerate(sorted(ALIASES.items())):
+            o = F.WindowFunction.from_alias(alias) if k % 2 else alias_factory_subclass_from_arg(F.WindowFunction, alias if k % 4 else {"name": alias})
+            rec.count("windows_obtained_by_alias")
+            if type(o).__name__ == name:
+                objs.append(o)
+                continue
+            for width in list(range(case["w0"], case["w1"]))[:40]:
+                call = types.SimpleNamespace(self=o, result=None, exc=None)
+                try:
+                    with monitor.quiet():
+                        call.result = o.get_impulse_response(width)
+                except Exception as e:
+                    call.exc = e
+                mon.judge_npwin(name, call, width)
         for width in range(case["w0"], case["w1"]):
             for o in objs:
                 o.get_impulse_response(width) if width % 2 else o.get_impulse_response(width=width)
